@@ -382,6 +382,10 @@ enum Mutation {
     /// a run of 1..12 further tokens (opcodes, zero-length and short pushes) at a token boundary - mostly in front of
     /// or behind the whole template: a template must match the WHOLE token sequence, however long
     InsertTokens(u16, Vec<u8>),
+    /// a Namecoin name operation in front of the script (NAME_NEW: OP_1 <hash> OP_2DROP; NAME_FIRSTUPDATE: OP_2 <name>
+    /// <rand> <value> OP_2DROP OP_2DROP; NAME_UPDATE: OP_3 <name> <value> OP_2DROP OP_DROP; and near misses): real
+    /// Namecoin outputs look like this - by the template rules they are not P2PKH / P2SH / ... outputs
+    NamePrefix(u8, Vec<u8>),
 }
 
 fn mutation() -> BS<Mutation> {
@@ -392,6 +396,7 @@ fn mutation() -> BS<Mutation> {
         3 => (any::<u16>(), prop_oneof![Just(0x61u8), 0xb0u8..=0xb9]).prop_map(|(p, b)| Mutation::InsertNop(p, b)),
         1 => (any::<u16>(), prop_oneof![Just(0x00u8), Just(0x4cu8), Just(0x4du8), Just(0x4eu8)]).prop_map(|(p, b)| Mutation::ZeroLenPush(p, b)),
         1 => (any::<u16>(), prop_oneof![Just(0x61u8), 0xb0u8..=0xb9], prop_oneof![2 => 2u16..40, 1 => 190u16..210, 1 => 210u16..600]).prop_map(|(p, b, n)| Mutation::PadNops(p, b, n)),
+        1 => (0u8..8, vec(any::<u8>(), 1..24)).prop_map(|(k, d)| Mutation::NamePrefix(k, d)),
         2 => (prop_oneof![3 => Just(0u16), 3 => Just(u16::MAX), 1 => any::<u16>()], vec(prop_oneof![
                 3 => Just(vec![0x00u8]),
                 3 => proptest::sample::select(vec![0x51u8, 0x52, 0x53, 0x60, 0x75, 0x76, 0x87, 0x88, 0xa9, 0xac, 0xae, 0x6a, 0x4f]).prop_map(|o| vec![o]),
@@ -454,6 +459,22 @@ fn apply_mutation(mut s: Vec<u8>, m: &Mutation) -> Vec<u8> {
             let at = bd[mono(*p, bd.len())].min(s.len());
             let tail = s.split_off(at);
             s.extend(std::iter::repeat(*b).take(*n as usize));
+            s.extend(tail);
+        }
+        Mutation::NamePrefix(kind, d) => {
+            let push = |v: &[u8]| { let mut o = vec![v.len() as u8]; o.extend(v); o };
+            let pre: Vec<u8> = match kind {
+                0 => [vec![0x51], push(d), vec![0x6d]].concat(),
+                1 => [vec![0x52], push(d), push(&d[..1]), push(d), vec![0x6d, 0x6d]].concat(),
+                2 => [vec![0x53], push(d), push(d), vec![0x6d, 0x75]].concat(),
+                3 => [vec![0x51], push(d), vec![0x75]].concat(),
+                4 => [vec![0x53], push(d), push(d), vec![0x75, 0x75]].concat(),
+                5 => [vec![0x52], push(d), push(d), push(d), vec![0x6d, 0x75]].concat(),
+                6 => [vec![0x51], push(d), push(d), vec![0x6d]].concat(),
+                _ => [vec![0x54], push(d), vec![0x6d, 0x75]].concat(),
+            };
+            let tail = std::mem::take(&mut s);
+            s = pre;
             s.extend(tail);
         }
         Mutation::InsertTokens(p, toks) => {
